@@ -30,7 +30,7 @@ RULE = (
     "Histories of 1..6 annotate invocations on one file.  Initial state: {empty, body only, hand-written header in the file's own style (single or block), "
     "header in a foreign style, information in FILE.license}; file type from 12 styles; target FILE or (fixed per history) FILE.license.  Each step draws "
     "0..2 holders (from a small pool, so holders recur with different years), 0..2 licences, 0..2 contributors, prefix, 0..3 --year / --exclude-year, "
-    "--style same / other, --multi-line, --no-replace, --merge-copyrights, --skip-existing, template {default, prose, without contributors}.  Invariant "
+    "--style same / other, --multi-line, --no-replace, --merge-copyrights, --skip-existing, template {default, prose, without contributors, dropping licences / copyright (plain and pre-commented): a success must not lose anything}.  Invariant "
     "after each step that reports success: licences and (while every template so far renders them) contributors read back literally as a superset of "
     "model U request; copyright notices literally until the first merge step, and always holder-wise (no holder lost, year span of each holder covers all "
     "years stated so far).  A skipped or failing step must leave the file byte-identical.  Non-trivial = history with >= 2 successful steps of which one "
@@ -114,7 +114,7 @@ class AnnotateMachine(RuleBasedStateMachine):
           prefix=st.one_of(st.none(), st.sampled_from(sorted(V.PREFIXES))),
           years=st.one_of(st.lists(st.integers(1980, 2030).map(str), min_size=0, max_size=3), st.lists(V.year(), min_size=1, max_size=1)),
           exclude=st.booleans(), other_style=st.one_of(st.none(), st.none(), st.sampled_from(sorted(S.STYLES))), multi=st.booleans(),
-          no_replace=st.integers(0, 4), merge=st.integers(0, 2), skip_existing=st.integers(0, 6), template=st.sampled_from([None, None, None, "prose", "nocontrib"]))
+          no_replace=st.integers(0, 4), merge=st.integers(0, 2), skip_existing=st.integers(0, 6), template=st.sampled_from([None, None, None, None, "prose", "prose", "nocontrib", "nocontrib", "droplic", "cdroplic", "dropcop", "cdropcop"]))
     def annotate(self, holders, licences, contributors, prefix, years, exclude, other_style, multi, no_replace, merge, skip_existing, template):
         if not (holders or licences or contributors):
             holders = [HOLDER_POOL[0]]
@@ -163,9 +163,12 @@ class AnnotateMachine(RuleBasedStateMachine):
             self.interesting = True
         if merge == 0:
             self.merged = True
-        if template == "nocontrib" and no_replace != 0:
+        norender = template == "nocontrib" or template in AN.DROPPING
+        if norender and no_replace != 0:
             self.con_tracked = False  # a replaced header is re-rendered without its contributors
-        self._learn(AN.requested_notices(req), licences, contributors if template != "nocontrib" else [])
+        if template in AN.DROPPING:
+            self.ctx.label("step:dropping-template-succeeded")
+        self._learn(AN.requested_notices(req), licences, contributors if not norender else [])
         self._check(f"after step {len(self.history) - 1} ({' '.join(args)})")
 
     def _check(self, when):
